@@ -257,7 +257,7 @@ Qed.
 Lemma raw_post_F0 : forall s j, F0 s (raw_post s j).
 Proof.
   intros s j. unfold raw_post.
-  destruct (efd_raw s =? 0).
+  destruct (raw_is_pipe s j).
   - pose proof (ksame_write (kern s) (rw_wfd s j) 1 0) as K. destruct (k_write (kern s) (rw_wfd s j) 1 0) as [k1 x].
     apply F0_set_kern. exact K.
   - pose proof (ksame_write (kern s) (rw_wfd s j) 8 1) as K. destruct (k_write (kern s) (rw_wfd s j) 8 1) as [k1 x].
@@ -314,8 +314,8 @@ Proof.
   intros s1 _. unfold F0r. cbn [res_state].
   set (s2 := do_close s1 (rw_rfd s1 j)).
   assert (A2 : F0 s1 s2) by apply do_close_F0.
-  set (s3 := if efd_raw s2 =? 0 then do_close s2 (rw_wfd s2 j) else s2).
-  assert (A3 : F0 s2 s3) by (unfold s3; destruct (efd_raw s2 =? 0); [apply do_close_F0|apply F0_refl]).
+  set (s3 := if raw_is_pipe s2 j then do_close s2 (rw_wfd s2 j) else s2).
+  assert (A3 : F0 s2 s3) by (unfold s3; destruct (raw_is_pipe s2 j); [apply do_close_F0|apply F0_refl]).
   eapply F0_trans; [exact A2|]. eapply F0_trans; [exact A3|]. apply F0_plain; reflexivity.
 Qed.
 
